@@ -1,5 +1,6 @@
 import Fabio.Generated.C19
 import Fabio.Model.C19
+import Fabio.Model.C19Load
 /-!
 C19 — obligations over the facts regenerated from `/repo` on every run (`tools/factgen/c19.go`).
 They tie the model of `Fabio.Model.C19` to the source: which variable `SetConfig` assigns, which option feeds
@@ -141,5 +142,23 @@ theorem responseWriter_passes_every_WriteHeader_through :
     Generated.C19.serveHTTPWriterWriteHeader = "every-call-passed-through" ∧
     RW.writeHeader = RW.writeHeaderWith false := by
   exact ⟨by decide, rfl⟩
+
+/-- `config/default.go` gives the five options the values the model's `Cfg.defaults` has. -/
+theorem defaults_are_model :
+    Generated.C19.defaultFiveUnevaluated = [] ∧
+    Generated.C19.defaultFive =
+      [("DialTimeout", Cfg.defaults.dialTimeout), ("ResponseHeaderTimeout", Cfg.defaults.responseHeaderTimeout),
+       ("KeepAliveTimeout", Cfg.defaults.keepAliveTimeout), ("IdleConnTimeout", Cfg.defaults.idleConnTimeout),
+       ("MaxConn", Cfg.defaults.maxConn)] := by decide
+
+/-- Between the flag parser and `transport.SetConfig` nothing stores into the five options: package config and
+package main contain no assignment to `….Proxy.{DialTimeout, ResponseHeaderTimeout, KeepAliveTimeout,
+IdleConnTimeout, MaxConn}` and take their address only to register them as flags — so `load`'s result is what
+`SetConfig` receives, whatever else is configured. (`c19.load` runs listener read/write/idle timeouts, the
+global read/write timeouts, flush intervals and registry timeouts around the five; an adjustment that depends
+on an option it does not generate is what this obligation excludes.) -/
+theorem load_does_not_rewrite_the_five_options :
+    Generated.C19.configWritesToTheFive = [] ∧
+    Generated.C19.fiveFlagNames.length = 5 := by decide
 
 end Fabio.Props.C19Facts
